@@ -106,6 +106,11 @@ def pool(h, o, level):
             ops.append("a bset %s %s %s" % (h, p, d))
     for d in ("41", "-", "fill:63:41", "fill:64:41", "fill:65:41", "fill:s:41"):
         ops.append("a printf %s %s" % (h, d))
+    if level == 2:
+        # output that crosses the end of the buffer and ends one byte before a 64 byte block (no room for the terminator
+        # unless the second pass asks for the whole block), onto 0, 3 and 8 bytes of content
+        for n in (127, 124, 119, 191, 188, 128):
+            ops.append("a printf %s fill:%d:41" % (h, n))
     ops.append("a string %s" % h)
     # mpt_buffer_insert called directly on a private copy (positions up to the overflow of pos + len)
     for p in (["0", "1", "u", "u+3", "s", "s+1", "18446744073709551612", "18446744073709551615"] if level == 2 else ["1", "u+3", "18446744073709551612"]):
